@@ -135,6 +135,17 @@ CLAIMED = {
             'to 7 significant digits) and a second write/read cycle must change no data.',
             'independent parser written from the header grammar; normal-comment count line not judged',
             'DESIGN.md section 4 C19'),
+    'C20': ('A', 'model_checking',
+            'bounded-exhaustive enumeration of small fields over an adversarial power-of-two alphabet packed/unpacked by the real code, plus reference-encoded ARL files',
+            'Every assignment of an 18-value alphabet (0, +-1, 2^k and its float32 neighbours for k in {-3,0,4,15}, '
+            '1e-30, 1e30, 255.5*2^-7) to the cells of 1x2, 1x3 and 2x2 fields (quick; thorough adds 2x3, constants and '
+            'long ramps, 0.78 M fields): unpack(pack(x)) and an independent serial decoder must stay within '
+            '2**(NEXP-7), first element exact, checksum equal to the rotating byte sum, PREC = 2**NEXP/254. '
+            'Reference-encoded lat/lon ARL files (1-3 times crossing a year, 1-2 levels with 6-significant-character '
+            'heights, 1-2 surface/upper variables, 3 field patterns) are read by arlpackedbit (variables, levels, '
+            'times, fields, auto-detection) and re-written by writearlpackedbit, whose output is decoded by an '
+            'independent reader.',
+            'serial reference with float32 emulation; projected grids (pyproj) out of scope', 'DESIGN.md section 4 C20'),
 }
 
 PENDING_REASON = ('check not built yet in this session; planned per DESIGN.md section 4 '
